@@ -672,16 +672,16 @@ def interleaved(res, nworkers):
 
 def run(ctx):
     sk = e1_memory_logger.skeleton(REPO)
-    broken = bool(ctx.broken) or bool(sk["problems"]) or not all(
+    broken = any(n in ctx.broken for n in GENERATED_OBLIGATIONS) or bool(sk["problems"]) or not all(
         m["locked"] or not [a for a in m["accesses"] if a[0] != "call"] for m in sk["methods"].values())
     if broken:
         ctx.notes.append("lock-discipline obligations are broken: failing-input search on the real code with the enlarged budget")
     rng = ctx.rng("programs")
     srng = ctx.rng("schedules")
-    nprog = ctx.budget(32, 80)
+    nprog = ctx.budget(40, 100)
     bound = ctx.budget(2, 3)
-    dfs_limit = ctx.budget(60, 600) * (5 if broken else 1)
-    nrandom = ctx.budget(6, 125) * (3 if broken else 1)
+    dfs_limit = ctx.budget(200, 1500) * (3 if broken else 1)
+    nrandom = ctx.budget(15, 125) * (3 if broken else 1)
     total = Budget(ctx.budget(75, 700))
     S = make_scheduler()
     model_in, model_ctx = [], []
@@ -784,7 +784,8 @@ def run_files(ctx, S, srng, broken):
                 ctx.broken_tie(name, "model driver rejected the case: %s" % mo["bad"], case)
                 break
             real = list(raw) if binary else [ord(ch) for ch in raw.decode("utf-8", "replace")]
-            if mo["content"] != real or not mo["done"] or not exact or [w[0] for w in mo["log"]] != (order if len(mo["log"]) == len(order) else None):
+            whole = ops.count("writeWhole") == 1 and all(o in ("writeWhole", "flush") for o in ops)
+            if mo["content"] != real or not mo["done"] or not exact or (whole and [w[0] for w in mo["log"]] != order):
                 ctx.broken_tie(name, "file model and real file differ (exact mapping=%s, model done=%s)" % (exact, mo["done"]),
                                dict(case, real=raw.decode("utf-8", "replace")[:500], model="".join(chr(c) for c in mo["content"])[:500] if not binary else bytes(mo["content"]).decode("utf-8", "replace")[:500]))
                 if len(ctx.extra.get("disagreements", [])) > 20:
